@@ -132,7 +132,45 @@ def lookup_by_reference(chk: Check, eng: Engine, rule: str) -> None:
     chk.ok(rule, "fandango.*", 0, f"{n_ref} position lookups use index_by_reference")
 
 
+def symbol_hash_rule(chk: Check, eng: Engine, rule: str) -> None:
+    """R10-f.  Tree identity is the structural hash, and that hash is built from hash(node.symbol).  Symbol.__eq__ distinguishes the symbol
+    classes (`type(self) is type(other)`), so the hash of every concrete symbol class has to carry a kind discriminator too (its SymbolType or
+    its class): otherwise the terminal '<x>' and a childless nonterminal <x> hash alike and the two *trees* compare equal."""
+    sym = eng.cls("fandango.language.symbols.symbol", "Symbol")
+    eq = sym.lookup("__eq__")
+    if eq is None:
+        raise AnalysisError("Symbol.__eq__ not found")
+    eq_src = norm(eq.node)
+    eq_by_kind = "type(self)" in eq_src or "__class__" in eq_src or "isinstance" in eq_src or "_type" in eq_src
+    if not eq_by_kind:
+        chk.ok(rule, eq.fq, eq.line, "Symbol.__eq__ does not distinguish symbol kinds (then the hash need not either)", nontrivial=False)
+        return
+    n = 0
+    for k in sym.all_subclasses():
+        if any("ABC" in b or "abc." in b for b in k.base_exprs) and not k.methods:
+            continue
+        h = k.lookup("__hash__")
+        if h is None:
+            continue
+        abstract = any("abstractmethod" in d for d in h.decorators())
+        if abstract:
+            chk.bad(rule, eng.relfile(h), h.line, k.fq, f"{k.name} inherits an abstract __hash__", "instances cannot be hashed", keyparts=f"symbol-hash-abstract|{k.name}")
+            continue
+        n += 1
+        src = norm(h.node)
+        if "_type" in src or "type(self)" in src or "__class__" in src:
+            chk.ok(rule, h.fq, h.line, f"{k.name}.__hash__ carries the symbol kind (`{short(h.node.body[-1], 60)}`)")  # type: ignore[attr-defined]
+        else:
+            chk.bad(rule, eng.relfile(h), h.line, h.fq, f"{k.name}.__hash__ (`{short(h.node.body[-1], 60)}`) does not include the symbol kind although Symbol.__eq__ compares the class",  # type: ignore[attr-defined]
+                    "DerivationTree equality is equality of structural hashes built from hash(symbol): a terminal leaf '<x>' and an empty nonterminal <x> at the same position make two "
+                    "different trees compare equal (one is dropped as a duplicate of the other; caches answer for the wrong tree)", keyparts=f"symbol-hash-kind|{k.name}")
+    if n < 2:
+        raise AnalysisError(f"only {n} concrete symbol classes with a __hash__ found")
+
+
 def run(chk: Check, eng: Engine) -> None:
+    chk.rule("R10-f", "the hash of every symbol class carries the symbol kind that Symbol.__eq__ compares (tree identity is the structural hash over hash(symbol))", floor=2)
+    symbol_hash_rule(chk, eng, "R10-f")
     chk.rule("R10-e", "positions of nodes in children/sources lists are looked up by reference, never by structural equality (index/remove/in)", floor=2)
     lookup_by_reference(chk, eng, "R10-e")
     chk.rule("R10-a", "read-only accessors (tree accessors, selector searches, containers) have no structure-write effect on borrowed trees", floor=60)
@@ -532,6 +570,7 @@ _MU = "src/fandango/evolution/mutation.py"
 _RB = "src/fandango/constraints/repetition_bounds.py"
 _S = "src/fandango/language/search.py"
 MUTANTS = [
+    M("nonterminal-hash-without-kind", "src/fandango/language/symbols/non_terminal.py", "        return hash((self._value, self._type))\n", "        return hash(self._value)\n", "R10-f"),
     M("deepcopy-inherits-hash", _T, "        memo[id(self)] = copied\n", "        memo[id(self)] = copied\n        copied.hash_cache = self.hash_cache\n", "R10-c"),
     M("delete-repetitions-adopts-originals", _RB, "        for child in copy_parent.children[::-1]:\n            repetition_node_id = self._repetition_id", "        for child in tree.children[::-1]:\n            repetition_node_id = self._repetition_id", "R10-b"),
     M("insert-position-by-value", _RB, "        index = index_by_reference(tree, self._ending_rep_tree)\n", "        index = tree.children.index(self._ending_rep_tree) if self._ending_rep_tree in tree.children else None\n", "R10-e"),
